@@ -734,7 +734,31 @@ func (fr *frame) builtin(b *ssa.Builtin, in ssa.Instruction, c *ssa.CallCommon, 
 		fc.oblig("safety", "safety.panic", "false", reach, pos, nil).Src = "explicit panic reachable"
 		return nil
 	case "copy":
-		fc.unsupported("copy() in %s", fr.fn.Name())
+		// supported shape: copy((*p)[a:b], src) with byte slices - the bytes are written back to *p
+		if sl, ok := c.Args[0].(*ssa.Slice); ok {
+			if ld, ok := sl.X.(*ssa.UnOp); ok && ld.Op == token.MUL {
+				if pr, ok := fr.val(ld.X).(Term); ok && pr.Sort == SInt {
+					elemT := ptrElem(ld.X.Type())
+					cur, isT := fr.loadRef(st, pr, elemT).(Term)
+					src, isS := args[1].(Term)
+					if isT && isS && cur.Sort == SString && src.Sort == SString {
+						lo := "0"
+						if sl.Low != nil {
+							lo = fr.term(sl.Low).S
+						}
+						hi := "(str.len " + cur.S + ")"
+						if sl.High != nil {
+							hi = fr.term(sl.High).S
+						}
+						n := fc.define("copied", Term{fmt.Sprintf("(ite (< (str.len %s) (- %s %s)) (str.len %s) (- %s %s))", src.S, hi, lo, src.S, hi, lo), SInt})
+						nw := fc.define("aftercopy", Term{fmt.Sprintf("(str.++ (str.substr %s 0 %s) (str.substr %s 0 %s) (str.substr %s (+ %s %s) (- (str.len %s) (+ %s %s))))", cur.S, lo, src.S, n.S, cur.S, lo, n.S, cur.S, lo, n.S), SString})
+						fr.storeRef(st, pr, elemT, nw, reach, pos)
+						return n
+					}
+				}
+			}
+		}
+		fc.unsupported("copy() in %s (only copy((*p)[a:b], src) on byte slices is modelled)", fr.fn.Name())
 		return fc.fresh("copy", SInt)
 	case "min", "max":
 		a, b2 := args[0].(Term), args[1].(Term)
